@@ -422,7 +422,9 @@ func runResolve(sc *RScenario) []map[string]any {
 	mkWire := func(name string, t map[string][2]string) *rwire {
 		w := &rwire{name: name}
 		w.NodeType = component_definition.PropertyTypeComponent
-		w.Required = true
+		// Required is the scanner's default for tags that say nothing: with it unset a point is STILL required unless its tag
+		// says required=false explicitly (the harness always writes optional points that way)
+		w.Required = sc.Seed%2 == 0
 		w.ExtractHandler = func(meta *component_definition.Meta, field *component_definition.Field) (string, string, bool) {
 			if meta.Name() == holderName {
 				if tv, ok := t[field.StructField.Name]; ok {
